@@ -254,6 +254,18 @@ def run_check(pid, tier, seed=0, workers=None, only_job=None):
     jobs = h.jobs(tier)
     if only_job is not None:
         jobs = [j for j in jobs if only_job in j.get("name", "")]
+    if tier == "thorough":
+        # Jobs that only exist in the thorough tier are explored under a cpu budget each (bug hunting beyond the budget): a job
+        # whose frontier empties within its budget is part of the claim, one that is stopped is reported as such and claims
+        # nothing.  The quick tier's jobs (same parameters) always have to be exhausted.  A job can opt out ("exhaustive": True)
+        # or set its own budget ("hunt_cpu_s").
+        quick_jobs = h.jobs("quick")
+        extra = [j for j in jobs if j not in quick_jobs and not j.get("exhaustive") and not j.get("hunt_cpu_s")]
+        if extra:
+            total = float(os.environ.get("VERIF_HUNT_TOTAL_S", "30000"))
+            per_job = int(max(120, min(1200, total / len(extra))))
+            for j in extra:
+                j["hunt_cpu_s"] = per_job
     known_ids = open_known_ids(pid)
     known_meta = {e["id"]: e for e in load_known(pid)}
     workers = workers or int(os.environ.get("VERIF_WORKERS", "0")) or min(16, os.cpu_count() or 4)
